@@ -101,6 +101,13 @@ func (c *conn) terminate(err error) error {
 	return c.stream.Close() // Close the connection
 }
 
+// broken reports whether the connection has been terminated by a failure (reset, protocol error,
+// aborted exchange, ...) rather than closed by the user. A broken connection is never usable again,
+// so the client replaces it on the next call.
+func (c *conn) broken() bool {
+	return !c.closed.Load() && c.ctx.Err() != nil
+}
+
 // checkAvailable checks if the connection is available for use.
 // It returns net.ErrClosed if the connection has been closed.
 // If the provided context or the connection's internal context is done,
@@ -172,10 +179,11 @@ func (c *conn) writeloop() {
 				if errors.Is(err, net.ErrClosed) {
 					err = io.ErrClosedPipe
 				}
+				// Close the client before reporting the failure, so that the connection is
+				// already known to be broken when the caller (or the next one) looks at it.
+				_ = c.terminate(err)
 				req.err <- err
 				close(req.err)
-				// Close the client
-				_ = c.terminate(err)
 				return
 			}
 			close(req.err)
